@@ -330,7 +330,21 @@ pub fn generate(rng: &mut Rng, holder: usize, palette: &Palette) -> Content {
             if literal % 2 == 0 { "" } else { "  \n-- only a comment\n" },
             Class::SyntaxError,
         ),
-        | 13 => Content::plain("bad-directive", "@[import(\"a\", \"b\")] _", Class::DirectiveError),
+        | 13 => match rng.below(3) {
+            | 0 => Content::plain("bad-directive", "@[import(\"a\", \"b\")] _", Class::DirectiveError),
+            // several malformed directives in one file: which one is reported must not depend on
+            // anything but the text
+            | 1 => Content::plain(
+                "bad-directives3",
+                "(@[import(\"a\", \"b\")] _, (@[import(0)] _, @[import()] _))",
+                Class::DirectiveError,
+            ),
+            | _ => Content::plain(
+                "bad-directives4",
+                "((@[import()] _, @[import(0)] _), (@[import(\"x\", \"y\", \"z\")] _, @[intrinsic(nope)] _))",
+                Class::DirectiveError,
+            ),
+        },
         | 14 => Content::plain(&format!("debug{literal}"), &format!("@[debug] ({literal}, ())"), Class::Closed),
         | 15 => Content::plain("hole", "_", Class::Rejected),
         | 16 => Content {
@@ -344,7 +358,7 @@ pub fn generate(rng: &mut Rng, holder: usize, palette: &Palette) -> Content {
             "let x = (1, 2) in let (a, b) = x in (b, a)",
             Class::Closed,
         ),
-        | 18 => match rng.below(5) {
+        | 18 => match rng.below(8) {
             | 0 => Content::plain("two-holes", "(_, (_, 3))", Class::Rejected),
             | 1 => Content::plain(
                 "two-tyerrs",
@@ -353,8 +367,19 @@ pub fn generate(rng: &mut Rng, holder: usize, palette: &Palette) -> Content {
             ),
             | 2 => Content::plain("two-debugs", "(@[debug] 1, (@[debug] \"d\", @[debug] ()))", Class::Closed),
             | 3 => Content::plain("hole-and-tyerr", "(_, (\"c\" : @[intrinsic(i64)] _))", Class::Rejected),
+            | 5 => Content::plain(
+                "unconstrained-lambdas",
+                "({ fn p q r => ret () }, ({ fn s t => ret () }, 4))",
+                Class::Rejected,
+            ),
+            | 6 => Content::plain(
+                "let-holes",
+                "let x = _ in let y = _ in let z : _ = 5 in (x, (y, z))",
+                Class::Rejected,
+            ),
             | _ => Content::plain("typed-holes", "((_ : @[intrinsic(i64)] _), (_ : @[intrinsic(string)] _))", Class::Rejected),
         },
+
         | 19 => Content {
             name: "import3".into(),
             template: "(@[import({0})] _, (@[import({1})] _, @[import({2})] _))".into(),
@@ -381,7 +406,11 @@ pub fn generate(rng: &mut Rng, holder: usize, palette: &Palette) -> Content {
 }
 
 fn executable(name: &str, code: &str, imports: Vec<ImportRef>, missing_arm: bool) -> Content {
-    let body = if missing_arm {
+    let body = if missing_arm && name.ends_with('7') {
+        // two independent coverage gaps over different data types
+        "begin\n    def Two : VType = data | +One : Unit | +Other : Unit end that\n    def Tri : VType = data | +Ta : Unit | +Tb : Unit | +Tc : Unit end that\n    let two : Two = +One() that\n    let tri : Tri = +Tb() that\n    match tri | +Tb(_) => match two | +One(_) => ! (stdio/write_line) \"one\" { ! (process/exit) code } end end\n  end"
+            .to_string()
+    } else if missing_arm {
         "begin\n    def Two : VType = data | +One : Unit | +Other : Unit end that\n    let two : Two = +One() that\n    match two | +One(_) => ! (stdio/write_line) \"one\" { ! (process/exit) code } end\n  end"
             .to_string()
     } else {
